@@ -50,7 +50,15 @@ func (x *gg) v() *rt.Term {
 	}
 	return rt.V(int64(x.n(0, x.nvars-1, "v")))
 }
-func (x *gg) term() *rt.Term { return rt.A([]string{"a", "b", "c"}[x.n(0, 2, "t")]) }
+func (x *gg) term() *rt.Term {
+	if x.p(10, "listtoken") { // a token that is itself a list ([] as a token is not the end of the terminal list)
+		x.flags["list_token"] = true
+		return listTokens[x.n(0, len(listTokens)-1, "lt")]
+	}
+	return rt.A([]string{"a", "b", "c"}[x.n(0, 2, "t")])
+}
+
+var listTokens = []*rt.Term{rt.A("[]"), rt.A("[]"), rt.List([]*rt.Term{rt.A("a")}, nil), rt.List([]*rt.Term{rt.A("[]")}, nil)}
 func (x *gg) arg() *rt.Term {
 	switch k := x.n(0, 9, "arg"); {
 	case k < 5:
@@ -76,7 +84,7 @@ func (x *gg) terminals() *rt.Term {
 	if n > 0 && x.p(20, "string") {
 		ground := true
 		for _, e := range es {
-			ground = ground && e.K == rt.Atom
+			ground = ground && e.K == rt.Atom && len(e.S) == 1
 		}
 		if ground {
 			x.flags["string"] = true
@@ -328,13 +336,46 @@ func init() {
 		inputs = append(inputs, cur...)
 		prev = cur
 	}
+	// a few inputs holding tokens that are lists
+	e, la, a := rt.A("[]"), rt.List([]*rt.Term{rt.A("a")}, nil), rt.A("a")
+	listInputs = [][]*rt.Term{{e}, {la}, {e, a}, {a, e}, {e, e}, {la, e}, {a, la}, {rt.List([]*rt.Term{e}, nil)}, {a, e, a}}
 }
+
+var listInputs [][]*rt.Term
 
 type probe struct {
 	q    *rt.Term
 	kind string
 	max  int
 	seq  bool // compare as a sequence (generation mode prefix) instead of a multiset
+}
+
+// hasListToken: some rule mentions [] or a list inside a terminal list.
+func (c Case) hasListToken() bool {
+	var in func(t *rt.Term, inList bool) bool
+	in = func(t *rt.Term, inList bool) bool {
+		if t.Is(".", 2) {
+			es, tail := t.Unlist()
+			for _, e := range es {
+				if e.IsAtom("[]") || e.Is(".", 2) {
+					return true
+				}
+			}
+			return in(tail, true)
+		}
+		for _, a := range t.A {
+			if in(a, false) {
+				return true
+			}
+		}
+		return false
+	}
+	for _, r := range c.Rules {
+		if in(r, false) {
+			return true
+		}
+	}
+	return c.Direct != nil && in(c.Direct, false)
 }
 
 func (c Case) probes(maxLen int) []probe {
@@ -344,7 +385,11 @@ func (c Case) probes(maxLen int) []probe {
 	}
 	s := rt.C(c.Start, args...)
 	var ps []probe
-	for _, in := range inputs {
+	all := inputs
+	if c.hasListToken() {
+		all = append(append([][]*rt.Term{}, inputs...), listInputs...)
+	}
+	for _, in := range all {
 		if len(in) > maxLen {
 			continue
 		}
@@ -510,7 +555,7 @@ func init() {
 func TestProp(t *testing.T) {
 	r := h.Start(t, "C17")
 	defer r.Finish(t)
-	r.Rule("rapid-generated grammars: 1-4 ranked non-terminals of arity 0-2 (a rule may call itself or a lower rank only after consuming a terminal, so no left recursion), 1-3 rules each, bodies at nesting depth <= 3 over terminal lists (incl. variables as terminals), strings, non-terminals with arguments, sequence, alternation with ; and |, {}//1, \\+//1, !//0 (as a direct member of the body's top-level sequence or of a top-level alternative), call//N with closures, if-then-else and if-then, push-back heads. Each grammar is loaded by Exec of the --> text and by expand_term/2 + assertz/1; a generated body is also given directly to phrase/3. For every input list up to length 4 over {a,b,c} (121 lists, exhaustively; quick: up to length 3): phrase/2 (recognition), phrase/3 with an open remainder (all remainders), phrase/3 with every bound non-empty remainder that is a suffix of the input; plus generation mode (input unbound, first 20 answers, compared as a sequence). Oracle: the reference grammar interpreter (direct interpretation of the body on difference lists, no translation). Compared: the multiset of answers (argument bindings and remainder) and any error. Non-trivial: the grammar uses one of {\\+, !, ->, call//N, push-back, {}} and accepts at least one input and rejects at least one. Distinct by grammar.",
+	r.Rule("rapid-generated grammars: 1-4 ranked non-terminals of arity 0-2 (a rule may call itself or a lower rank only after consuming a terminal, so no left recursion), 1-3 rules each, bodies at nesting depth <= 3 over terminal lists (incl. variables as terminals and tokens that are lists themselves: [], [a], [[]]), strings, non-terminals with arguments, sequence, alternation with ; and |, {}//1, \\+//1, !//0 (as a direct member of the body's top-level sequence or of a top-level alternative), call//N with closures, if-then-else and if-then, push-back heads. Each grammar is loaded by Exec of the --> text and by expand_term/2 + assertz/1; a generated body is also given directly to phrase/3. For every input list up to length 4 over {a,b,c} (121 lists, exhaustively; quick: up to length 3; 9 more inputs with list tokens when the grammar mentions one): phrase/2 (recognition), phrase/3 with an open remainder (all remainders), phrase/3 with every bound non-empty remainder that is a suffix of the input; plus generation mode (input unbound, first 20 answers, compared as a sequence). Oracle: the reference grammar interpreter (direct interpretation of the body on difference lists, no translation). Compared: the multiset of answers (argument bindings and remainder) and any error. Non-trivial: the grammar uses one of {\\+, !, ->, call//N, push-back, {}} and accepts at least one input and rejects at least one. Distinct by grammar.",
 		"the reference grammar interpreter (internal/ref/dcg.go)",
 		"! nested inside a non-top-level ;, | or -> of a grammar body and {!} are outside the property and not generated")
 	if r.Shard() == 0 {
@@ -563,10 +608,13 @@ func TestProp(t *testing.T) {
 			}
 			walk(rule.A[1])
 		}
+		if c.hasListToken() {
+			flags["list_token"] = true
+		}
 		special := false
 		for k := range flags {
 			r.Label("uses:" + k)
-			if k != "string" && k != "bar" {
+			if k != "string" && k != "bar" && k != "list_token" {
 				special = true
 			}
 		}
